@@ -145,13 +145,21 @@ def _run(cmd, **kw):
     return r
 
 
-def _gc(keep=60):
+_PINNED = set()   # cache entries handed out by this process: never collected while it runs
+
+
+def _gc(keep=400):
+    """drop the least recently used cache entries beyond `keep` (never one this process has handed out, never a lock/temp)"""
     try:
         ents = [(os.path.getmtime(os.path.join(CACHE, d)), d) for d in os.listdir(CACHE)]
     except FileNotFoundError:
         return
     ents.sort(reverse=True)
-    for _, d in ents[keep:]:
+    for mt, d in ents[keep:]:
+        if time.time() - mt < 6 * 3600:
+            continue  # recently handed out (possibly by another running check)
+        if os.path.join(CACHE, d) in _PINNED or not (d.startswith("lib-") or d.startswith("bin-")) or ".tmp" in d or d.endswith(".lock"):
+            continue
         shutil.rmtree(os.path.join(CACHE, d), ignore_errors=True)
 
 
@@ -160,6 +168,7 @@ def lib(cfg, repo=None):
     repo = repo or REPO
     key = hashlib.sha256((tree_hash(repo) + cfg.tag() + " ".join(cfg.cflags()) + "v3").encode()).hexdigest()[:24]
     d = os.path.join(CACHE, "lib-" + key)
+    _PINNED.add(d)
     with _lock(d):
         return _lib_locked(cfg, repo, d)
 
@@ -218,6 +227,7 @@ def harness(cfg, sources, name, extra_cflags=(), extra_ldflags=(), repo=None, li
         h.update(p.encode()); h.update(open(p, "rb").read())
     d = os.path.join(CACHE, "bin-" + h.hexdigest()[:24])
     exe = os.path.join(d, name)
+    _PINNED.add(d)
     with _lock(d):
         return _harness_locked(cfg, sources, name, extra_cflags, extra_ldflags, L, hdir, d, exe, link_lib, instrument_harness)
 
